@@ -40,6 +40,13 @@ fn scen(_spec: RunSpec) -> ScenFut {
         let mut hist = format!("{:?};", strategy);
         let mut known: Vec<String> = Vec::new();
         let mut beating: BTreeMap<String, bool> = BTreeMap::new();
+        // a small model of what the history says about each node, independent of the registry's own bookkeeping:
+        // type, last reported load, drained (until it registers again), removed, last heartbeat
+        let mut m_type: std::collections::BTreeMap<String, NodeType> = std::collections::BTreeMap::new();
+        let mut m_load: std::collections::BTreeMap<String, u8> = std::collections::BTreeMap::new();
+        let mut m_drained: std::collections::BTreeSet<String> = std::collections::BTreeSet::new();
+        let mut m_removed: std::collections::BTreeSet<String> = std::collections::BTreeSet::new();
+        let mut m_beat: std::collections::BTreeMap<String, u64> = std::collections::BTreeMap::new();
         // last routed node per shard together with the event epoch at which it was observed
         let mut last: BTreeMap<String, (String, u64)> = BTreeMap::new();
         let mut epoch = 0u64;
@@ -63,6 +70,9 @@ fn scen(_spec: RunSpec) -> ScenFut {
                     sim::log(format!("EV{step} register {id} {:?}", ty));
                     nodes.register_node(NodeInfo::new(id.clone(), "127.0.0.1:8080".parse().unwrap(), ty)).await;
                     known.push(id.clone());
+                    m_type.insert(id.clone(), ty);
+                    m_load.insert(id.clone(), 0);
+                    m_beat.insert(id.clone(), sim::now_ns());
                     beating.insert(id, true);
                 }
                 3 => {
@@ -82,6 +92,9 @@ fn scen(_spec: RunSpec) -> ScenFut {
                             sim::probe("assigned-node-drained");
                         }
                         nodes.drain_node(&id).await;
+                        if !m_removed.contains(&id) {
+                            m_drained.insert(id.clone());
+                        }
                     }
                 }
                 6 | 7 => {
@@ -94,6 +107,7 @@ fn scen(_spec: RunSpec) -> ScenFut {
                             sim::probe("assigned-node-overloaded");
                         }
                         nodes.update_load(&id, load).await;
+                        m_load.insert(id.clone(), load);
                     }
                 }
                 8 => {
@@ -105,6 +119,7 @@ fn scen(_spec: RunSpec) -> ScenFut {
                             sim::probe("assigned-node-removed");
                         }
                         nodes.remove_node(&id).await;
+                        m_removed.insert(id.clone());
                     }
                 }
                 9 => {
@@ -126,6 +141,7 @@ fn scen(_spec: RunSpec) -> ScenFut {
                         for (id, on) in &beating {
                             if *on {
                                 nodes.heartbeat(id).await;
+                                m_beat.insert(id.clone(), sim::now_ns());
                             }
                         }
                     }
@@ -158,6 +174,25 @@ fn scen(_spec: RunSpec) -> ScenFut {
                             return;
                         }
                         Some(Ok(Some(n))) => {
+                            // against the history (not the registry's own fields): never a removed node, a drained node
+                            // that has not registered again, a query-only node, a node whose last reported load is
+                            // >= 95 %, or a node silent for more than 120 s (four times the heartbeat timeout)
+                            let why = if m_removed.contains(&n.id) {
+                                Some("was removed")
+                            } else if m_drained.contains(&n.id) {
+                                Some("was drained and has not registered again")
+                            } else if matches!(m_type.get(&n.id), Some(NodeType::Query)) {
+                                Some("is a query-only node")
+                            } else if m_load.get(&n.id).copied().unwrap_or(0) >= 95 {
+                                Some("last reported a load of 95 % or more")
+                            } else if sim::now_ns().saturating_sub(m_beat.get(&n.id).copied().unwrap_or(0)) > 120_000_000_000 {
+                                Some("has been silent for more than 120 s")
+                            } else {
+                                None
+                            };
+                            if let Some(why) = why {
+                                sim::violation("C19/routed-to-ineligible-node/by-history", format!("route_write({shard}) returned node {} which {why} (registry says status {:?}, load {})", n.id, n.status, n.load_percent));
+                            }
                             if !n.can_accept_writes() {
                                 sim::violation(
                                     "C19/routed-to-ineligible-node",
